@@ -12,9 +12,9 @@ SCALE = {"stringBits": "2", "tagBufSize": "4", "valBufSize": "16"}
 
 def z1_lemmas(tier, sizes=None):
     if sizes is None:
-        sizes = range(4, 8) if tier == "quick" else range(4, 10)
+        sizes = range(4, 8) if tier == "quick" else range(4, 9)
     ls = []
-    for T in ((8, 10) if tier == "quick" else (8, 10, 12)):
+    for T in ((8, 10) if tier == "quick" else (8, 10)):
         ls.append(Lemma("Z1.RoundTrip.strings.T%d" % T, "verifHarness_Z1_RoundTrip", FZ, splits=[{"T": T - 4, "cfg": 1}],
                         split_depth="auto", intr=ChunkIntrinsics, scale=SCALE, replay_patches=("memhash",),
                         desc="as Z1.RoundTrip on flat arrays of up to %d strings of length 0..2 (equal, prefix-related, hash-colliding by "
